@@ -15,5 +15,8 @@ func VerifSpan(reqs [][2]int) [][3]int            { return ireflect.VerifSpan(re
 func VerifBitset(ops [][2]int) []bool             { return ireflect.VerifBitset(ops) }
 func VerifDescMap(ops [][3]int) []int             { return ireflect.VerifDescMap(ops) }
 func VerifUnknown(b []byte, adds [][2]int) []byte { return ireflect.VerifUnknown(b, adds) }
-func VerifDispatch() []string                     { return ireflect.VerifDispatch() }
-func VerifParams() map[string]int                 { return ireflect.VerifParams() }
+func VerifUnknownOps(b []byte, ops [][3]int) [][]byte {
+	return ireflect.VerifUnknownOps(b, ops)
+}
+func VerifDispatch() []string     { return ireflect.VerifDispatch() }
+func VerifParams() map[string]int { return ireflect.VerifParams() }
